@@ -31,12 +31,17 @@ theorem SW_copyText {lo hi : Nat} (f t d : Nat) (h : lo ≤ d ∧ d + f ≤ hi) 
     · exact SW.pure _ trivial
     · exact ih _ _ (by omega)
 
-theorem SW_timeTail {lo hi : Nat} (cfg : Cfg) (dest dmax : Nat) (db : Bos) (text : Nat) (hpos : 26 ≤ dmax)
-    (h : lo ≤ dest ∧ dest + dmax ≤ hi) : SW lo hi (timeTail cfg dest dmax db text) (fun _ => True) := by
+theorem SW_timeTail {lo hi : Nat} (cfg : Cfg) (dest dmax : Nat) (db : Bos) (text : Nat) (lf : Bool) (hpos : 26 ≤ dmax)
+    (h : lo ≤ dest ∧ dest + dmax ≤ hi) : SW lo hi (timeTail cfg dest dmax db text lf) (fun _ => True) := by
   unfold timeTail
   dsimp only
   split
-  · refine SW.bind (Q := fun _ => True) ?_ (fun _ _ => SW.pure _ trivial)
+  · refine SW.bind (Q := fun _ => True) ?_ (fun _ _ => ?_)
+    · split
+      · rename_i hc
+        exact SW_copyText 120 text dest (by omega)
+      · exact SW.pure _ trivial
+    refine SW.bind (Q := fun _ => True) ?_ (fun _ _ => SW.pure _ trivial)
     split
     · exact SW.memsetP 0 dmax dest (Or.inr h)
     · exact SW.storeP dest 0 (by omega) (by omega)
@@ -94,10 +99,10 @@ theorem SW_asctime_s {lo hi : Nat} (cfg : Cfg) (dest dmax tm : Nat) (db : Bos) (
   refine SW.bind (Q := fun _ => True) (by split <;> sw_walk) (fun b2 _ => ?_)
   split
   · exact SW_failClr cfg dest dmax _ (by omega) hh
-  · exact SW_timeTail cfg dest dmax db text h26 hh
+  · exact SW_timeTail cfg dest dmax db text false h26 hh
 
-theorem SW_ctime_s {lo hi : Nat} (cfg : Cfg) (dest dmax timer : Nat) (db : Bos) (text : Nat)
-    (h : dest = 0 ∨ (lo ≤ dest ∧ dest + dmax ≤ hi)) : SW lo hi (ctime_s cfg dest dmax timer db text) (fun _ => True) := by
+theorem SW_ctime_s {lo hi : Nat} (cfg : Cfg) (dest dmax timer : Nat) (db : Bos) (text : Nat) (lf : Bool)
+    (h : dest = 0 ∨ (lo ≤ dest ∧ dest + dmax ≤ hi)) : SW lo hi (ctime_s cfg dest dmax timer db text lf) (fun _ => True) := by
   unfold ctime_s
   refine SW_timeEntry dest dmax db h (fun hd h26 => ?_)
   have hh : lo ≤ dest ∧ dest + dmax ≤ hi := by rcases h with h | h; exact absurd h hd; exact h
@@ -110,7 +115,7 @@ theorem SW_ctime_s {lo hi : Nat} (cfg : Cfg) (dest dmax timer : Nat) (db : Bos) 
   refine SW.bind (SW.loadP _) (fun t2 _ => ?_)
   split
   · exact SW_failClr cfg dest dmax _ (by omega) hh
-  · exact SW_timeTail cfg dest dmax db text h26 hh
+  · exact SW_timeTail cfg dest dmax db text lf h26 hh
 
 /-- **asctime_s**: all arguments, any `struct tm` contents, any text -/
 theorem asctime_s_C01 (cfg : Cfg) (dest dmax tm : Nat) (db : Bos) (text : Nat) (st : St) (hs : Setting st)
@@ -118,11 +123,11 @@ theorem asctime_s_C01 (cfg : Cfg) (dest dmax tm : Nat) (db : Bos) (text : Nat) (
     ∃ r st', exec (asctime_s cfg dest dmax tm db text) st = .ok (r, st') ∧ Holds st st' :=
   holds_of_SW dest dmax st hs hrw (fun _ _ h => SW_asctime_s cfg dest dmax tm db text h)
 
-/-- **ctime_s**: all arguments, any `time_t`, any text -/
-theorem ctime_s_C01 (cfg : Cfg) (dest dmax timer : Nat) (db : Bos) (text : Nat) (st : St) (hs : Setting st)
+/-- **ctime_s**: all arguments, any `time_t`, any text, libc succeeding or giving up (`lf`) -/
+theorem ctime_s_C01 (cfg : Cfg) (dest dmax timer : Nat) (db : Bos) (text : Nat) (lf : Bool) (st : St) (hs : Setting st)
     (hrw : dest ≠ 0 → RW st dest dmax) :
-    ∃ r st', exec (ctime_s cfg dest dmax timer db text) st = .ok (r, st') ∧ Holds st st' :=
-  holds_of_SW dest dmax st hs hrw (fun _ _ h => SW_ctime_s cfg dest dmax timer db text h)
+    ∃ r st', exec (ctime_s cfg dest dmax timer db text lf) st = .ok (r, st') ∧ Holds st st' :=
+  holds_of_SW dest dmax st hs hrw (fun _ _ h => SW_ctime_s cfg dest dmax timer db text lf h)
 
 /-! ## gets_s -/
 
@@ -155,6 +160,8 @@ theorem SW_strnlenP {lo hi : Nat} (n s acc : Nat) : SW lo hi (strnlenP n s acc) 
 theorem SW_getsBody {lo hi : Nat} (cfg : Cfg) (dest dmax inp len : Nat) (hpos : 0 < dmax) (h : lo ≤ dest ∧ dest + dmax ≤ hi) :
     SW lo hi (getsBody cfg dest dmax inp len) (fun _ => True) := by
   unfold getsBody
+  split
+  · exact SW.bind (SW.storeP dest 0 (by omega) (by omega)) (fun _ _ => SW.pure _ trivial)
   refine SW.bind (SW_fgetsLoop (dmax - 1) inp len dest 0 (by omega)) (fun r hr => ?_)
   obtain ⟨m, eof⟩ := r
   simp only [Nat.zero_add] at hr
